@@ -21,7 +21,7 @@ class Inconclusive(Exception):
     pass
 
 
-def evaluator_poly(prog, cls, scalar, name, coords, extra_sig=None, hook=None, env=None):
+def evaluator_poly(prog, cls, scalar, name, coords, extra_sig=None, hook=None, env=None, freeze=None, want_trace=False):
     """canonical polynomial of the value returned by cls::name(coords...) or None if the class has no override"""
     sig = '%s (%s)' % (scalar, ', '.join([scalar] * len(coords) + (extra_sig or [])))
     owner, m = cat.resolve_virtual(prog, cls, name, sig)
@@ -34,6 +34,8 @@ def evaluator_poly(prog, cls, scalar, name, coords, extra_sig=None, hook=None, e
     E = terms.Evaluator(prog, dyn_class=cls, scalar=scalar)
     if hook:
         E.opaque_hook = hook
+    if freeze:
+        E.freeze = dict(freeze)
     outs = E.run(fn, arg_names=list(coords) + ['cb%d' % i for i in range(len(extra_sig or []))])
     if len(outs) != 1 or outs[0].kind != 'ret' or outs[0].ret is None:
         raise Inconclusive('%s::%s has %d paths' % (cat.short(cls), name, len(outs)))
@@ -41,6 +43,8 @@ def evaluator_poly(prog, cls, scalar, name, coords, extra_sig=None, hook=None, e
     if u:
         raise Inconclusive('%s::%s contains an unmodelled construct (%s)' % (cat.short(cls), name, u[0]))
     try:
+        if want_trace:
+            return poly.from_term(outs[0].ret, env), fn, E.trace
         return poly.from_term(outs[0].ret, env), fn
     except (ValueError, poly.TooBig) as ex:
         raise Inconclusive('%s::%s: %s' % (cat.short(cls), name, ex))
